@@ -754,7 +754,10 @@ class SimLoop(base_events.BaseEventLoop):
         n = net.bind_attempts[port]
         net.bind_attempts[port] += 1
         plan = net.bind_plan.get(port)
-        if plan and n < len(plan) and plan[n] != "ok":
+        if plan and n < len(plan) and isinstance(plan[n], str) and plan[n].startswith("slow:"):
+            # address resolution / the event loop is slow: the start-up takes that many (virtual) seconds
+            await tasks.sleep(float(plan[n][5:]))
+        elif plan and n < len(plan) and plan[n] != "ok":
             code = plan[n]
             raise OSError(code, f"error while attempting to bind on address ({host!r}, {port}): injected")
         if port in net.listeners:
